@@ -61,6 +61,10 @@ CHECKS = {
    technique="exhaustive enumeration of the configuration product (page size x initial pages x strict x populate) with a fixed set of page-size-scaled histories executed on the real library against the reference model; every builder-accepted odd page size probed in a subprocess",
    text="All 108 configurations run the same histories (key/value sizes as fractions of the page size so split/merge thresholds are hit everywhere): every return value and post-commit dump must equal the reference model, the file must be well-formed, strict mode must not reject a valid commit; growth runs start from the configured initial size and cross at least four extension steps; every page size in [1024,1100] and 4095..4104 must work or be refused cleanly.",
    note="Trusted: refmodel, fileck. direct_writes is not in the property's quantifier."),
+ "C15": dict(engine="compatx", cat="exploration", ref="DESIGN.md §2 C15",
+   technique="enumeration of golden files written by the pinned code (4 page sizes x 3 header variants incl. the legacy SHA3 record) opened and continued under the current code, every mismatching page size refused byte-identically, and every file produced by a fixed history set parsed by the independent reader that encodes the pinned layout",
+   text="Each golden file (nested buckets three deep, multi-page values, non-empty free list, 6 commits) must open with exactly the recorded contents in all three header variants, accept five further transactions (one reusing free pages) and a reopen; opening it with any other page size of the set must be refused without changing a byte; files written by the current tree at each page size must parse with fileck to the reference contents.",
+   note="Trusted: fileck (pinned layout constants), the golden generation procedure (golden/README), refmodel."),
 }
 
 NA = {}
@@ -103,6 +107,7 @@ def main():
             {"name": "faultx", "path": "mc/src/faultx.rs", "serves_properties": ["C11"], "kind_free_text": "per-call I/O fault injection over each commit, follow-up transactions and reopen"},
             {"name": "schedx", "path": "mc/src/sched.rs, mc/src/schedx.rs, mc/src/c09.rs, mc/src/c13.rs", "serves_properties": ["C04", "C09", "C13"], "kind_free_text": "controlled scheduler for real OS threads running the real library (baton passing, lock model in the scheduler, context-bounded DFS over choice prefixes, subtree jobs spread over worker processes)"},
             {"name": "optx", "path": "mc/src/optx.rs", "serves_properties": ["C16"], "kind_free_text": "configuration-product enumeration with model comparison; odd page sizes in probe processes"},
+            {"name": "compatx", "path": "mc/src/compatx.rs", "serves_properties": ["C15"], "kind_free_text": "golden-file and page-size-mismatch enumeration; write-side conformance through the independent parser"},
             {"name": "seqx", "path": "mc/src/seqx.rs", "serves_properties": ["C01", "C03", "C05", "C06", "C07", "C10"], "kind_free_text": "explicit-state BFS over histories of whole transactions executed on the real library in worker processes; state = history, key = structural digest of file + shared in-memory bookkeeping"},
         ],
         "checks": checks,
